@@ -43,6 +43,11 @@ def run(ctx):
     ctx.rule('R13.5', 'grouping is total: no size/depth cut-off in the drivers and passes this property relies on', floor=1)
     RT2.check_recursion_coverage(ctx, 'R13.5', only={'group_where', 'group_identifier_list', 'group_functions', 'group_comparison', 'group_typed_literal', 'group_case', 'group_parenthesis', 'group_operator'})
     RT2.check_no_cutoff(ctx, 'R13.5', only={'_group', 'group_where', 'group_identifier_list', 'group_functions', 'group_comparison', 'group_typed_literal', '_group_matching'})
+    # a typed literal (and an array index) is grouped with post = (tidx, nidx) / (pidx, tidx): the neighbour on the other side is
+    # only looked at.  The joining driver must not refuse to group because that neighbour is the "(" or ")" of the enclosing group.
+    from . import c09
+    ctx.rule('R13.6', 'the joining driver groups a typed literal directly behind "(" / in front of ")": only neighbours taken into the group are protected delimiters', floor=3)
+    c09.driver_simulation(ctx, ctx.repo.func('sqlparse.engine.grouping._group'), 'R13.6')
     from .. import rules_base as RB
     ctx.rule('R13.B', 'base model: token-type containment, token flags / normal form, Token.match and imt behave as the abstract evaluation assumes', floor=1)
     RB.check_base_model(ctx, 'R13.B', parts=('contains', 'flags', 'match', 'imt'))
